@@ -76,7 +76,9 @@ def exc_code(e):
 
 SIG = 1000000                 # type id SIG + c = RRSIG covering c
 RDTYPES = [1, 2, 16, 28, 15, 5, 39, 47, SIG + 5, SIG + 2]
-SINGLETONS = (5, 39, 47)      # CNAME, DNAME, NSEC (dns.rdatatype.is_singleton)
+SINGLETONS = (5, 39, 47)
+RDCLASS = [1]                 # class of the zone of the case being run (1 IN, 3 CH, 4 HS)
+CLASS_FREE = {1: 16, 28: 15}  # A / AAAA are class-IN types: other classes use TXT / MX instead      # CNAME, DNAME, NSEC (dns.rdatatype.is_singleton)
 
 
 def split_type(t):
@@ -107,7 +109,7 @@ def rdata_of(t, i):
         text = f"{dns.rdatatype.to_text(covers)} 8 2 300 20300101000000 20200101000000 {i} signer.test. AAAA"
     else:
         raise ValueError(rdtype)
-    return dns.rdata.from_text(dns.rdataclass.IN, rdtype, text)
+    return dns.rdata.from_text(RDCLASS[0], rdtype, text)
 
 
 def id_of(rd):
@@ -134,7 +136,7 @@ def id_of(rd):
 
 def mk_rdataset(t, ids):
     rdtype, covers = split_type(t)
-    rds = dns.rdataset.Rdataset(dns.rdataclass.IN, rdtype, covers)
+    rds = dns.rdataset.Rdataset(RDCLASS[0], rdtype, covers)
     rds.update_ttl(300)
     for i in ids:
         rds.add(rdata_of(t, i), 300)
@@ -245,6 +247,7 @@ def apply_op(txn, op):
 def run_history(case):
     rel, origin, txns = case[:3]
     t = case[3] if len(case) > 3 else 0
+    RDCLASS[0] = case[4] if len(case) > 4 else 1
     zcls, dcls = zone_classes(t)
     saved = dns.btreezone.Delegations
     dns.btreezone.Delegations = dcls
@@ -252,10 +255,11 @@ def run_history(case):
         return run_history_in(zcls, rel, origin, txns)
     finally:
         dns.btreezone.Delegations = saved
+        RDCLASS[0] = 1
 
 
 def run_history_in(zcls, rel, origin, txns):
-    z = zcls(N(origin), relativize=bool(rel))
+    z = zcls(N(origin), RDCLASS[0], relativize=bool(rel))
     out = []
     older = []       # (version object, its dump when it was the newest)
     for repl, commit, ops, queries in txns:
@@ -297,24 +301,28 @@ def zone_text(records):
     lines = []
     for name, rdtype, i in records:
         owner = dns.name.Name(name).to_text()
-        lines.append(f"{owner} 300 IN {dns.rdatatype.to_text(split_type(rdtype)[0])} {rdata_of(rdtype, i).to_text()}")
+        lines.append(f"{owner} 300 {dns.rdataclass.to_text(RDCLASS[0])} {dns.rdatatype.to_text(split_type(rdtype)[0])} {rdata_of(rdtype, i).to_text()}")
     return "\n".join(lines) + "\n"
 
 
 def run_load(case):
     """[100, relativize, origin, origin_in_text, [[name, rdtype, id]...], [queries]]"""
-    _, rel, origin, in_text, records, queries = case
-    text = zone_text(records)
-    if in_text:
-        text = "$ORIGIN " + N(origin).to_text() + "\n" + text
-        z = dns.zone.from_text(text, None, relativize=bool(rel), zone_factory=dns.btreezone.Zone,
-                               check_origin=False)
-    else:
-        z = dns.zone.from_text(text, N(origin), relativize=bool(rel), zone_factory=dns.btreezone.Zone,
-                               check_origin=False)
-    with z.reader() as r:
-        v = r.version
-        return [[[0] * len(records), dump_version(v), [query(v, q) for q in queries]]]
+    _, rel, origin, in_text, records, queries = case[:6]
+    RDCLASS[0] = case[6] if len(case) > 6 else 1
+    try:
+        text = zone_text(records)
+        if in_text:
+            text = "$ORIGIN " + N(origin).to_text() + "\n" + text
+            z = dns.zone.from_text(text, None, RDCLASS[0], relativize=bool(rel), zone_factory=dns.btreezone.Zone,
+                                   check_origin=False)
+        else:
+            z = dns.zone.from_text(text, N(origin), RDCLASS[0], relativize=bool(rel),
+                                   zone_factory=dns.btreezone.Zone, check_origin=False)
+        with z.reader() as r:
+            v = r.version
+            return [[[0] * len(records), dump_version(v), [query(v, q) for q in queries]]]
+    finally:
+        RDCLASS[0] = 1
 
 
 def impl(case):
@@ -460,7 +468,7 @@ def oracle(ctx, kind, case, out):
         fail("history raised " + out.text, sig="exc")
         return F
     if case[0] == 100:
-        _, rel, origin, _, records, queries = case
+        _, rel, origin, _, records, queries = case[:6]
         check_state(fail, rel, origin, out[0][1], out[0][2], queries, 0)
         return F
     rel, origin, txns = case[:3]
@@ -694,6 +702,38 @@ def gen_deep(ctx, rng):
 
 
 
+def with_class(case, rdclass):
+    """the same history in a zone of another class (A / AAAA, which only exist in class IN, become
+    TXT / MX); the model is class-agnostic, so implementation and model must still agree"""
+    def retype(op):
+        return op[:2] + [CLASS_FREE.get(op[2], op[2])] + op[3:] if len(op) > 2 else op
+    if case[0] == 100:
+        recs = [[n, CLASS_FREE.get(t, t), i] for n, t, i in case[4]]
+        return case[:4] + [recs, case[5], rdclass]
+    txns = [[r, c, [retype(op) for op in ops], qs] for r, c, ops, qs in case[2]]
+    t = case[3] if len(case) > 3 else 0
+    return [case[0], case[1], txns, t, rdclass]
+
+
+def nested_cut_family(ctx):
+    """deterministic: a chain of nested cuts b > a.b > c.a.b (+ data beside and beneath), every
+    order of removing / CNAME-replacing / re-adding the outer cuts, one transaction each, in zones
+    of class IN, CH and HS, relativized and absolute"""
+    o = [b"example", b""]
+    base = [[1, [], NS, [1]], [1, [b"b"], NS, [1]], [1, [b"a", b"b"], NS, [1]], [1, [b"c", b"a", b"b"], NS, [2]],
+            [1, [b"x", b"c", b"a", b"b"], 16, [1]], [1, [b"z", b"b"], 16, [1]], [1, [b"d"], 16, [1]]]
+    qs = [[], [b"b"], [b"a", b"b"], [b"c", b"a", b"b"], [b"x", b"c", b"a", b"b"], [b"y", b"c", b"a", b"b"],
+          [b"z", b"b"], [b"zz", b"b"], [b"d"], [b"c"]]
+    removals = [[4, [b"b"], NS], [3, [b"b"]], [2, [b"b"], 5, [1]],
+                [4, [b"a", b"b"], NS], [3, [b"a", b"b"]], [2, [b"a", b"b"], 5, [1]], [1, [b"b"], NS, [3]]]
+    for rdclass in (1, 3, 4):
+        for rel in (1, 0):
+            for s1 in removals:
+                for s2 in removals:
+                    txns = [[1, 1, base, []], [0, 1, [s1], qs], [0, 1, [s2], qs]]
+                    yield "nested-class%d" % rdclass, [rel, o, txns, 3 if rel else 0, rdclass]
+
+
 def exhaustive_small(ctx):
     yield from exhaustive_types(ctx, (NS, 1), "exhaustive")
     yield from exhaustive_types(ctx, (NS, 5), "exhaustive-cname")
@@ -723,12 +763,16 @@ def exhaustive_types(ctx, types, kind):
 
 def cases(ctx):
     rng = ctx.rng
+    yield from nested_cut_family(ctx)
     for _ in range(ctx.n(320, 5000)):
-        yield "history", gen_history(ctx, rng)
+        c = gen_history(ctx, rng)
+        yield "history", (with_class(c, rng.choice([3, 4])) if rng.random() < 0.25 else c)
     for _ in range(ctx.n(25, 400)):
         yield "long", gen_history(ctx, rng, ntxn=rng.choice([8, 12]), nq=2)
     for _ in range(ctx.n(35, 450)):
-        yield from permuted_loads(ctx, rng)
+        cl = rng.choice([1, 1, 3, 4])
+        for kind, c in permuted_loads(ctx, rng):
+            yield kind, (with_class(c, cl) if cl != 1 else c)
     # all query names over the label alphabet on the final state
     for _ in range(ctx.n(30, 350)):
         c = gen_history(ctx, rng, nq=0)
@@ -737,7 +781,8 @@ def cases(ctx):
         txns[-1][3] = [user_form(rng, rel, origin, q, 0.05) for q in all_queries(ALPHA, ctx.n(3, 3))]
         yield "bounds-all", c
     for _ in range(ctx.n(60, 1200)):
-        yield "deep", gen_deep(ctx, rng)
+        c = gen_deep(ctx, rng)
+        yield "deep", (with_class(c, rng.choice([3, 4])) if rng.random() < 0.3 else c)
     for i in range(ctx.n(2, 36)):
         n = LARGE_SIZES[i % len(LARGE_SIZES)] if i % 2 == 0 else rng.randint(256, 700)
         yield "large", gen_large(ctx, rng, n)
